@@ -115,6 +115,10 @@ let handle () : Stdlib.String.t =
     (match canonicalize_with_fast lam m with None -> "none" | Some c -> (match serialize c with None -> "none" | Some s -> "ok " ^ hex_of_text s))
   | "lex" ->
     (match lex_text (text_of_hex (next ())) with None -> "none" | Some ts -> "ok " ^ String.concat " " (List.map tok_name ts))
+  | "antlr" ->   (* the translated ANTLR recogniser: outcome, then the token types the model lexer + literal table give *)
+    let s = text_of_hex (next ()) in
+    let types = (match lex_text s with None -> "-" | Some ts -> (match antlr_types ts with None -> "?" | Some tys -> String.concat "," (List.map sz tys))) in
+    (match antlr_recognise s with AntlrAccept -> "accept " | AntlrSyntaxError -> "syntax " | AntlrLexError -> "lex ") ^ types
   | "parse" ->
     (match ref_parse (text_of_hex (next ())) with Inl e -> "err " ^ perr_name e | Inr g -> "ok " ^ show_mol g)
   | "readmol" ->
